@@ -510,13 +510,13 @@ PROPS['C07']['thorough'] = PROPS['C07']['thorough'] + [sideb(['reject', 'random_
 PROPS['C07']['bounds_text'] += '; side B reject family: cycles closed by a function, struct, field provider or a binding, in direct, nested, inline and re-exporting sets, with the result on and off the cycle, through the real front end; the wire binary runs under a 900 s / 12 GB limit (60 s / 3 GB per package when searching for the culprit) and being stopped by it is a violation'
 
 # H_newset: the front end's merging of provider sets (processExpr -> processNewSet -> objectCache -> buildProviderMap ->
-# verifyAcyclic) on every argument list of <= 2 (3) items of a 21-item pool (providers, bindings, set variables, an alias,
+# verifyAcyclic) on every argument list of <= 2 (3) items of a 24-item pool (providers, bindings, set variables, an alias,
 # inline sets); added after seeded changes S45 / S47, which sit in processNewSet, in front of H_bpm and H_acyclic
-for _p in ('C05', 'C06', 'C07', 'C10', 'C11'):
+for _p in ('C05', 'C06', 'C07', 'C08', 'C10', 'C11'):
     PROPS[_p]['quick'] = PROPS[_p]['quick'] + [tspec('H_newset', args=2, real_typestring=1), tspec('H_newset', args=1, warm=1, real_typestring=1)]
     PROPS[_p]['thorough'] = PROPS[_p]['thorough'] + [tspec('H_newset', args=3, real_typestring=1), tspec('H_newset', args=2, warm=1, real_typestring=1)]
     PROPS[_p]['covers'] = dict(PROPS[_p].get('covers', {}), H_newset=['newset-accepted', 'newset-refused'])
-    PROPS[_p]['bounds_text'] += '; H_newset: wire.NewSet calls with every list of <=2 (3) arguments over a pool of 21 items (7 provider functions, 2 bindings, 5 set variables one of which aliases another, 7 inline sets incl. nested ones), real go/ast + go/types, oracle = reference model of the documented rules (multiplicity through nested sets, co-located bindings, cycles); variant warm=1: one of ten set-valued items is analysed first with the same object cache and must not influence the verdict (no state leaks between the analyses of two sets)'
+    PROPS[_p]['bounds_text'] += '; H_newset: wire.NewSet calls with every list of <=2 (3) arguments over a pool of 24 items (8 provider functions, 2 bindings, 2 field providers, 5 set variables one of which aliases another, 7 inline sets incl. nested ones), real go/ast + go/types, oracle = reference model of the documented rules (multiplicity through nested sets, co-located bindings, cycles); variant warm=1: one of ten set-valued items is analysed first with the same object cache and must not influence the verdict (no state leaks between the analyses of two sets)'
 
 
 # variadic providers in every result shape (added after seeded change S63: the error check after a variadic call was dropped)
@@ -551,3 +551,12 @@ for _t in ('quick', 'thorough'):
 for _t in ('quick', 'thorough'):
     PROPS['C03'][_t] = PROPS['C03'][_t] + [tspec('H_zero')]
 PROPS['C03']['covers'] = dict(PROPS['C03'].get('covers', {}), H_zero=['zero'])
+
+# two bindings written in one set (added after seeded change S85: bindings of a set were checked against the set as it
+# was before any of them was installed, so two bindings of one interface in the same set went unnoticed)
+PROPS['C05']['quick'] = PROPS['C05']['quick'] + [spec('H_bpm', params=dict(overrides=1, diamond=0, bind2=1), label='H_bpm[overrides=1,diamond=0,bind2=1]')]
+PROPS['C05']['thorough'] = PROPS['C05']['thorough'] + [spec('H_bpm', params=dict(overrides=2, diamond=0, bind2=1), label='H_bpm[overrides=2,diamond=0,bind2=1]')]
+PROPS['C05']['bounds_text'] += '; H_bpm bind2=1: a second binding written in the Build set itself whose interface type ranges over all ids (its concrete type: the set\'s provider, its value, or an unprovided type; a binding whose concrete type is another binding\'s interface of the same set is outside the bound)'
+for _t in ('quick', 'thorough'):
+    PROPS['C06'][_t] = PROPS['C06'][_t] + [wspec('H_field', fields=2, len=2)]
+PROPS['C06']['covers'] = dict(PROPS['C06'].get('covers', {}), H_field=['field-selected'])
